@@ -2,7 +2,7 @@
    Debug shape: `ADD(X(4), SP, XZR)` -> (ADD (X 4) SP XZR); `Immediate { val: 5 }` -> (Immediate 5);
    strings are quoted atoms; unit variants (RET, TEXT) are bare atoms. *)
 From Coq Require Import List ZArith NArith String Bool.
-From SCC Require Import Base.Sexp Model.A64.
+From SCC Require Import Base.Sexp Model.A64 Sem.HeapLock.
 Import ListNotations.
 Open Scope string_scope.
 
@@ -86,6 +86,16 @@ Fixpoint somes {X} (l : list (option X)) : list X :=
   match l with [] => [] | Some x :: r => x :: somes r | None :: r => somes r end.
 Definition g_acodes (x : sexp) : option (list acode) :=
   match x with L l => do cs <- omap g_acode l; Some (somes cs) | _ => None end.
+
+(* the implementation's own statement markers (Sem/HeapLock.is_statement_comment): such a COMMENT is
+   kept as the pseudo-label "#s<comment>" (labels are no-ops of size 0); used by heap-a64 / c10-a64 *)
+Definition g_acode_s (x : sexp) : option (option acode) :=
+  match x with
+  | L [A "COMMENT"; Q c] => Some (if is_statement_comment c then Some (LAB ("#s" ++ c)) else None)
+  | _ => g_acode x
+  end.
+Definition g_acodes_s (x : sexp) : option (list acode) :=
+  match x with L l => do cs <- omap g_acode_s l; Some (somes cs) | _ => None end.
 
 (* the assembly text of one instruction, as code.rs prints it (used in reports) *)
 Definition show_reg (r : areg) : string :=
